@@ -137,7 +137,7 @@ func checkC13(c *Ctx, r *Report) {
 	protoZA(r, p)
 	protoWrappers(r, p)
 	c13ParameterBlock(r, p)
-	r.Floor("protocol_paths", 60)
+	r.Floor("protocol_paths", 20)
 }
 
 // c13ParameterBlock: internal.GetZBytes() yields a || b || Gx || Gy of the curve literal
